@@ -72,6 +72,13 @@ class Pool:
         k = ECC.generate(curve='Ed25519', randfunc=rf)
         self.ed = (k.export_key(format='DER'), k.public_key())
         self.hmac = rf(32)
+        # further keys of each class (histories over several verifier objects: key roll-over etc.)
+        self.more = {'rsa': [self.rsa, self.rsa2], 'hmac': [self.hmac, rf(32), rf(32)], 'ecdsa': [self.ec[72]], 'ed25519': [self.ed]}
+        for _ in range(2):
+            k = ECC.generate(curve='P-256', randfunc=rf)
+            self.more['ecdsa'].append((k.export_key(format='DER'), k.public_key()))
+            k = ECC.generate(curve='Ed25519', randfunc=rf)
+            self.more['ed25519'].append((k.export_key(format='DER'), k.public_key()))
 
     def pub_der(self, which):
         if which in ('ec256', 'ec384', 'ec521'):
@@ -111,6 +118,19 @@ class SynSigner(Signer):
 class Recorder(Signer):
     """Wraps a signer: records what it was handed and what it wrote; optionally re-signs until the
     signature has the wanted length (ECDSA DER signatures vary in length)."""
+
+    _OWN = frozenset(['inner', 'target', 'calls', 'covered', 'buflen', 'actual', 'reserve', 'sig', 'sig_info'])
+
+    def __setattr__(self, k, v):
+        # transparent for everything else: code under test that configures the signer it was given
+        # (e.g. signer.key_locator_name = ...) reaches the real object
+        if k in Recorder._OWN:
+            object.__setattr__(self, k, v)
+        else:
+            setattr(self.inner, k, v)
+
+    def __getattr__(self, k):
+        return getattr(object.__getattribute__(self, 'inner'), k)
 
     def __init__(self, inner, target=None):
         self.inner, self.target = inner, target
